@@ -1022,8 +1022,8 @@ def one_tree(M, tseed, with_edits=True):
 
 # ------------------------------------------------------------------------------------------ plan / work / finish
 def plan(tier, seed):
-    shards = 32 if tier == "quick" else 64
-    per = 64 if tier == "quick" else 2400
+    shards = 16 if tier == "quick" else 64  # worker start-up (imports) costs ~1.5 CPU-s: few, fat shards in quick
+    per = 128 if tier == "quick" else 2400
     if os.environ.get("XV_PYPATH") and os.environ.get("XV_C29_PER"):  # mutant self-tests on a loaded machine only
         per = int(os.environ["XV_C29_PER"])
     return [{"kind": "trees", "base": (seed * 4096 + s) * 1_000_000, "count": per} for s in range(shards)]
